@@ -115,12 +115,7 @@ func (wd *world) observe(w *tr.W) {
 	}
 	wd.mu.Unlock()
 	for k := 1; k <= wd.cfg.NK; k++ {
-		cache[k-1] = []int{}
-		for _, f := range wd.facs {
-			if v, ok := f.Peek(wd.keys[k-1]); ok {
-				cache[k-1] = append(cache[k-1], toInt(v))
-			}
-		}
+		cache[k-1] = wd.peekAll(k)
 	}
 	w.Emit(tr.E{"ev": "step", "cache": cache, "store": st})
 }
